@@ -604,6 +604,9 @@ type Prog struct {
 	Steps []Step
 	Desc  string
 	Depth int // extra call depth between failure sites and the signal
+	// the property looks at t.Failed() first and returns at once when it is set (a common guard in front of an
+	// expensive or fatal stage): on a T that has not signalled anything it must be false in every kind of run
+	FailedGate bool
 }
 
 func (s Step) describe() string {
@@ -930,6 +933,10 @@ func genProg(seed uint64, o progOpts) *Prog {
 	if p.Depth > 0 {
 		p.Desc += fmt.Sprintf("; [failure sites %d frames deep]", p.Depth)
 	}
+	if r.chance(1, 4) {
+		p.FailedGate = true
+		p.Desc += "; [returns at once if t.Failed()]"
+	}
 	return p
 }
 
@@ -1156,6 +1163,10 @@ func (p *Prog) body() func(x *X) {
 		x.siteDepth = p.Depth
 		if d := os.Getenv("VERIF_DEPTH"); d != "" { // experiments only
 			fmt.Sscan(d, &x.siteDepth)
+		}
+		if p.FailedGate && x.t.Failed() {
+			x.ev("Failed() reported true before anything was signalled on this T")
+			return
 		}
 		x.exec(p.Steps)
 	}
